@@ -160,6 +160,9 @@ fn kx_marc_shared_reserve() {
         assert!(((b.data as usize) & ORIGINAL_CAPACITY_MASK) >> ORIGINAL_CAPACITY_OFFSET == g.repr);
         assert!(count(&g) == 1 && block_intact(&g));
         assert!(b.ptr.as_ptr() as usize != g.base as usize + g.off);
+        // its size is the request or the handle's original capacity, not more (lemmas/recycle_retention.rs)
+        let want = core::cmp::max(g.len + n, original_capacity_from_repr(g.repr));
+        assert!(b.cap >= want && b.cap <= core::cmp::max(want, 8));
     } else {
         assert!(count(&g) == 2 && b.data == g.shared);
     }
